@@ -23,7 +23,8 @@ Exec(s0, o) ==
   CASE o.op = "predict" -> VPredict(s0, o.scene, o.dets)
     [] o.op = "batch" -> LET B == [s \in {o.b[i].scene : i \in DOMAIN o.b} |-> o.b[CHOOSE i \in DOMAIN o.b : o.b[i].scene = s].dets]
                              r == VPredictBatch(s0, B) IN
-                         [unique |-> r.unique, st |-> r.st,
+                         [unique |-> r.unique, st |-> r.st, ok |-> r.ok,
+                          nt |-> [lost |-> r.nlost, vis |-> r.nvis, evicts |-> r.nevicts, refused |-> r.nrefused],
                           ret |-> [i \in DOMAIN o.b |-> [scene |-> o.b[i].scene, recs |-> r.ret[o.b[i].scene]]]]
     [] o.op = "skip" -> Skip(s0, o.scene, o.n) @@ [unique |-> TRUE]
     [] o.op = "idle" -> Idle(s0, o.scene) @@ [unique |-> TRUE]
@@ -39,11 +40,11 @@ PJ(s0) == [epochs |-> [i \in 1..Len(SceneSeq) |-> <<SceneSeq[i], s0.epoch[SceneS
 GInit == st = InitState /\ h = <<>>
 Step(o) == LET r == Exec(st, o) IN
            /\ r.unique
-           /\ (o.op = "predict" => Assert(r.ok, <<"operational outcome outside what C12 / C13 allow", st, o>>))
+           /\ (o.op \in {"predict", "batch"} => Assert(r.ok, <<"operational outcome outside what C12 / C13 allow", st, o>>))
            /\ st' = r.st
            /\ h' = Append(h, [o |-> o, ret |-> r.ret, proj |-> PJ(r.st),
                               nt |-> IF o.op = "predict" THEN [lost |-> Cardinality(r.lost), vis |-> Cardinality(r.claimers), evicts |-> Cardinality(r.evicts), refused |-> Cardinality(r.refused)]
-                                    ELSE [lost |-> 0, vis |-> 0, evicts |-> 0, refused |-> 0]])
+                                    ELSE IF o.op = "batch" THEN r.nt ELSE [lost |-> 0, vis |-> 0, evicts |-> 0, refused |-> 0]])
 GNext == /\ Len(h) < D
          /\ \E o \in (IF Sim = 0 THEN Ops ELSE RandomSubset(Sim, Ops)) : Step(o)
 GSpec == GInit /\ [][GNext]_<<st, h>>
